@@ -43,7 +43,10 @@ Inductive value :=
 | VOpaque (k : okind) (rendered : text).
 
 (* result of a call / an evaluation: a value (possibly an error VALUE) or a Go panic *)
-Inductive res := Ret (v : value) | Panic | NoFuel.      (* NoFuel: a fuel-bounded loop of the MODEL ran out *)
+(* classes of Go panics: index / slice / missing argument; integer or decimal division by zero; the decimal
+   library's "exponent overflows an int32" / "overflow in decimal QuoRem" *)
+Inductive pclass := PBounds | PDivZero | PExponent.
+Inductive res := Ret (v : value) | Panic (c : pclass) | NoFuel.      (* NoFuel: a fuel-bounded loop of the MODEL ran out *)
 
 (* result of a conversion: the converted thing, or "an XError is returned" *)
 Inductive conv (A : Type) := Ok (a : A) | Bad.
@@ -240,39 +243,38 @@ Definition dec_round (d : dec) (places : Z) : dec :=
 
 (* Decimal.QuoRem(d2, precision): panics on a zero divisor and on exponent overflow.
    Result: truncated quotient at 10^-precision and the remainder *)
-Definition dec_quorem (a b : dec) (precision : Z) : option (dec * dec) :=
-  if (mant b =? 0)%Z then None
+Definition dec_quorem (a b : dec) (precision : Z) : pclass + (dec * dec) :=
+  if (mant b =? 0)%Z then inl PDivZero
   else
     let scale := (- precision)%Z in
     let e := (dexp a - dexp b - scale)%Z in
-    if negb (in_int32 e) then None
+    if negb (in_int32 e) then inl PExponent
     else
-      let '(aa, bb, expo) :=
-        if (e <? 0)%Z then (mant a, mant b * 10 ^ (- e), dexp a)%Z
-        else (mant a * 10 ^ e, mant b, (scale + dexp b))%Z in
-      Some (Dec (Z.quot aa bb) scale, Dec (Z.rem aa bb) expo).
+      inr (if (e <? 0)%Z
+           then (Dec (Z.quot (mant a) (mant b * 10 ^ (- e))) scale, Dec (Z.rem (mant a) (mant b * 10 ^ (- e))) (dexp a))
+           else (Dec (Z.quot (mant a * 10 ^ e) (mant b)) scale, Dec (Z.rem (mant a * 10 ^ e) (mant b)) (scale + dexp b)))%Z.
 
 (* Decimal.Mod = remainder of QuoRem(d2, 0) *)
-Definition dec_mod (a b : dec) : option dec :=
-  match dec_quorem a b 0 with Some (_, r) => Some r | None => None end.
+Definition dec_mod (a b : dec) : pclass + dec :=
+  match dec_quorem a b 0 with inr (_, r) => inr r | inl c => inl c end.
 
 (* Decimal.DivRound(d2, precision) (Div = DivRound with DivisionPrecision = 16) *)
-Definition dec_div_round (a b : dec) (precision : Z) : option dec :=
+Definition dec_div_round (a b : dec) (precision : Z) : pclass + dec :=
   match dec_quorem a b precision with
-  | None => None
-  | Some (q, r) =>
-      (* rv2 = |2 r|; compare with |b| after bringing both to the same exponent; round half away from zero *)
+  | inl c => inl c
+  | inr (q, r) =>
+      (* rv2 = |2 r| at exponent r.exp + precision, compared with |b|; round half away from zero *)
       let r2 := Dec (Z.abs (2 * mant r)) (dexp r + precision) in
       let babs := Dec (Z.abs (mant b)) (dexp b) in
       match dec_cmp r2 babs with
-      | Lt => Some q
+      | Lt => inr q
       | _ => let up := if Z.eqb (Z.sgn (mant a) * Z.sgn (mant b)) (-1) then (-1)%Z else 1%Z in
-             Some (Dec (mant q + up) (dexp q))
+             inr (Dec (mant q + up) (dexp q))
       end
   end.
 
 Definition division_precision : Z := 16%Z.
-Definition dec_div (a b : dec) : option dec := dec_div_round a b division_precision.
+Definition dec_div (a b : dec) : pclass + dec := dec_div_round a b division_precision.
 
 Definition dec_of_Z (z : Z) : dec := Dec z 0.
 
